@@ -20,6 +20,11 @@ def run(chk):
         vlib.run_scripts(chk, slist, c_exe, m_exe, slist.corpus(), slist.oracle)
         if chk.tier == "quick":
             scripts, nstates, closed = slist.exhaustive_scripts(nelem=4, nlists=2, depth=12)
+            # lists anchored at different hooks of the elements (list 3): small closure over all three lists
+            s3, n3, c3 = slist.exhaustive_scripts(nelem=2, nlists=3, depth=10)
+            scripts += s3
+            nstates += n3
+            closed = closed and c3
             rnd = slist.random_scripts(chk.rng, 60, 200, 12)
         else:
             scripts, nstates, closed = slist.exhaustive_scripts(nelem=5, nlists=3, depth=14)
@@ -28,7 +33,7 @@ def run(chk):
         chk.stats["transitions"] += len(scripts)
         chk.exhaustive = closed
         chk.extra["scope"] = ("every in-domain operation from every reference state reachable with "
-                              "%s; closed=%s" % ("4 elements / 2 lists" if chk.tier == "quick" else "5 elements / 3 lists", closed))
+                              "%s; closed=%s" % ("4 elements / 2 lists, and 2 elements / 3 lists (list 3 is anchored at another hook of the elements)" if chk.tier == "quick" else "5 elements / 3 lists", closed))
         vlib.run_scripts(chk, slist, c_exe, m_exe, scripts, slist.oracle)
         vlib.run_scripts(chk, slist, c_exe, m_exe, rnd, slist.oracle)
         if chk.mismatches and not chk.oracle_failures:
